@@ -337,6 +337,17 @@ func minimiseAndWrite(e Engine, r *Run, v *Violation, cfg map[string]string, kno
 	bestRec := r.Rec
 	deadline := time.Now().Add(60 * time.Second)
 	tries := 0
+	// try executes a candidate; it is kept only if the same violation class recurs AND the candidate
+	// is an improvement (shorter consumed list, or same length with a smaller value sum, or - for the
+	// skip pass - any change), so that no pass can loop without progress.
+	measure := func(v []int) (int, int) {
+		sum := 0
+		for _, x := range v {
+			sum += x
+		}
+		return len(v), sum
+	}
+	anyChange := false
 	try := func(cand []int) bool {
 		if time.Now().After(deadline) || tries > 6000 {
 			return false
@@ -346,8 +357,16 @@ func minimiseAndWrite(e Engine, r *Run, v *Violation, cfg map[string]string, kno
 		if fatal != "" || vv == nil || vv.Class != v.Class {
 			return false
 		}
+		used := rr.Values()
+		if tries > 1 && !anyChange {
+			l0, s0 := measure(best)
+			l1, s1 := measure(used)
+			if !(l1 < l0 || (l1 == l0 && s1 < s0)) {
+				return false
+			}
+		}
 		// keep what was actually consumed (trailing unused choices vanish)
-		best = rr.Values()
+		best = used
 		bestV = vv
 		bestTrace = rr.Trace
 		bestMarks = rr.Marks
@@ -362,7 +381,9 @@ func minimiseAndWrite(e Engine, r *Run, v *Violation, cfg map[string]string, kno
 				if i < len(bestRec) && i < len(best) && strings.HasPrefix(bestRec[i].L, "skip.") && best[i] == 0 {
 					cand := append([]int{}, best...)
 					cand[i] = 1
+					anyChange = true // switching an operation off raises a value by design
 					try(cand)
+					anyChange = false
 				}
 			}
 		}
